@@ -1006,6 +1006,9 @@ def rule_r11(repo, run):
     from sa.report import import_rules
     import_rules(run, R, c11, repo, {"C11.R1", "C11.R2"})
     import_rules(run, R, c02, repo, {"C02.R2"})
+    # every C helper a bind(C) interface names is written to the C utility file (C05.R14)
+    from checks import c05
+    import_rules(run, R, c05, repo, {"C05.R14"}, only=lambda c: c.endswith(":shared-helpers-per-module"))
 
 
 def rule_r12(repo, run):
@@ -1042,6 +1045,18 @@ def rule_r12(repo, run):
                   "a %s is declared %s in the bind(C) derived type: size and offsets of the Fortran type differ from the C "
                   "struct" % (desc, "as a single type(C_PTR)" if got_ptr else "with its value type instead of type(C_PTR)"),
                   wf.loc(loops[0]), sample=dict(member=desc, c_ptr=got_ptr))
+    # the C copy of a C++ struct is the sibling of the derived type: each member is rendered from its declaration
+    # (type, pointer stars, array extents), not from its type name and member name alone
+    wc_ = repo.module("wrapc")
+    ws_ = wc_.func("Wrapc.wrap_struct")
+    ml = [l for l in ast.walk(ws_) if isinstance(l, ast.For) and str(wc_.seg(l.iter)).endswith(".variables")]
+    if len(ml) != 1:
+        raise AnalysisError("C04.R12: member loop of Wrapc.wrap_struct not found")
+    rend_c = [c for c in ast.walk(ml[0]) if isinstance(c, ast.Call) and isinstance(c.func, ast.Attribute) and c.func.attr == "gen_arg_as_c"]
+    run.check(R, "wrapc.Wrapc.wrap_struct:member-declarator", bool(rend_c),
+              "the members of the C struct are not rendered with the declaration's gen_arg_as_c(): written from type and name "
+              "fields (`{c_type} {variable_name};`) a member `double pos[3]` or `int *hits` becomes `double pos` / `int hits` and "
+              "the C struct is smaller than the bind(C) derived type", wc_.loc(ml[0]))
     # value members are components of a bind(C) type, not dummy arguments: they are rendered with the interoperable type
     # (f_c_type: logical(C_BOOL), not the wrapper-side `logical`) and without dummy-argument forms (character(len=*))
     rend = [c for c in ast.walk(loops[0]) if isinstance(c, ast.Call) and isinstance(c.func, ast.Attribute)
